@@ -109,9 +109,11 @@ structure Mutf8 where
   enc : String → Bytes
   dec : Bytes → Except Err String
 
-/-- the one law of `mutf8` the proofs use -/
+/-- the two facts about `mutf8` the proofs use: decoding undoes encoding, and the empty string
+(the root name `NBT.send` writes) encodes to no bytes -/
 structure Mutf8Law (m : Mutf8) : Prop where
   rt : ∀ s, m.dec (m.enc s) = .ok s
+  empty : m.enc "" = []
 
 /-- strict UTF-8: an executable instance (equal to `mutf8` on strings over U+0001…U+FFFF) -/
 def Mutf8.utf8 : Mutf8 where
@@ -491,6 +493,31 @@ def nbtDomB (m : Mutf8) (v : Value) : Bool :=
 def nbtDom (m : Mutf8) (v : Value) : Prop := nbtDomB m v = true
 
 instance (m : Mutf8) (v : Value) : Decidable (nbtDom m v) := by unfold nbtDom; infer_instance
+
+/-! ### models of CHANGED code (used only to show that the theorems would notice)
+
+Each is a one-line edit of `basic.py:349-359` after which every field layout is still `Layout.ok`. -/
+
+/-- `NBT.read` rewritten as `pynbt.NBTFile(io=io.BytesIO(file_object.read()))` ("read the rest of the
+packet, then parse"): the parse is the same, but everything after the NBT field is gone -/
+def nbtReadWholeRest (m : Mutf8) (bs : Bytes) : Except Err (Value × Bytes) := do
+  let (v, _) ← nbtRead m bs
+  pure (v, [])
+
+/-- `NBT.send` rewritten with `pynbt.NBTFile(name=None, value=value)` (the nameless root of the
+1.20.2+ network format): `BaseTag.write` then skips the 0x0A byte and the name -/
+def nbtSendNameless (m : Mutf8) (v : Value) : Except Err Bytes :=
+  match ofRootValue v with
+  | none => .error .type
+  | some (_, es) => do
+    if !keysOk es then throw .type
+    let body ← saveEntries m es
+    pure (body ++ [0])
+
+/-- `NBT.send` without its last line (`socket.send(buffer.getvalue())`) -/
+def nbtSendNothing (m : Mutf8) (v : Value) : Except Err Bytes := do
+  let _ ← nbtSend m v
+  pure []
 
 end Nbt
 
